@@ -33,6 +33,7 @@ import (
 type Out struct {
 	K string `json:"k"`
 	V int64  `json:"v,omitempty"` // value (val) or error id 1..5 (err)
+	W int    `json:"w,omitempty"` // how the error is wrapped: 0 bare, 1 fmt.Errorf %w, 2 ers.Wrap, 3 errors.Join
 }
 
 type CallOut struct {
@@ -108,24 +109,35 @@ const (
 	idUnknown  = 999
 )
 
+// errOf builds the error for an outcome. Every kind has wrapped variants: the library classifies
+// errors with errors.Is at every site, so a wrapped skip is a skip, a wrapped io.EOF is io.EOF, ...
+// (the Coq model therefore has no "wrapped" dimension; a site that compared by identity would show
+// as a disagreement).
 func errOf(o Out) error {
+	var e error
 	switch o.K {
 	case "skip":
-		return fun.ErrIteratorSkip
+		e = fun.ErrIteratorSkip
 	case "err":
-		e := sentinels[o.V]
-		if o.V%2 == 0 { // wrapped and plain errors must behave the same
-			return fmt.Errorf("wrapped: %w", e)
-		}
-		return e
+		e = sentinels[o.V]
 	case "eof":
-		return io.EOF
+		e = io.EOF
 	case "abort":
-		return ers.ErrCurrentOpAbort
+		e = ers.ErrCurrentOpAbort
 	case "ctx":
-		return context.Canceled
+		e = context.Canceled
+	default:
+		return nil
 	}
-	return nil
+	switch o.W {
+	case 1:
+		return fmt.Errorf("wrapped: %w", e)
+	case 2:
+		return ers.Wrap(e, "annotated")
+	case 3:
+		return errors.Join(e, nil)
+	}
+	return e
 }
 
 func errIDs(err error) []int {
@@ -725,6 +737,28 @@ func readAllDiff(t *Tree) string {
 	return ""
 }
 
+// wrappedSkip reports whether one of the node's own tables answers a wrapped ErrIteratorSkip.
+func wrappedSkip(t *Tree) bool {
+	for _, o := range t.Tbl {
+		if o.K == "skip" && o.W != 0 {
+			return true
+		}
+	}
+	if t.F != nil {
+		for _, c := range t.F.ByCall {
+			if c.O.K == "skip" && c.O.W != 0 {
+				return true
+			}
+		}
+		for _, c := range t.F.ByVal {
+			if c.O.K == "skip" && c.O.W != 0 {
+				return true
+			}
+		}
+	}
+	return false
+}
+
 // culprit finds the deepest subtree whose own ReadOne sequence already violates the oracle.
 func culprit(t *Tree) (*Tree, string) {
 	for _, k := range t.Kids {
@@ -790,6 +824,12 @@ func oracle(run *kit.Run, c Case, o Obs) {
 			op = opName[sub.Op]
 			if cls == "sequence" && (sub.Op == "transform" || sub.Op == "gen") && specOf(sub).skipHit {
 				cls = "skip"
+				if wrappedSkip(sub) {
+					cls = "wrapped-skip"
+					if sub.Op == "gen" { // a producer's skip is handled by Iterator.ReadOne
+						op = "ReadOne"
+					}
+				}
 			}
 		} else {
 			cls = what
@@ -1024,6 +1064,9 @@ func genOut(r *kit.Rand) Out {
 	if k == "err" {
 		o.V = int64(r.Range(1, 5))
 	}
+	if r.Chance(1, 2) {
+		o.W = r.Range(1, 3)
+	}
 	return o
 }
 
@@ -1209,8 +1252,9 @@ func corpus() []Case {
 	sl := func(l ...int64) *Tree { return &Tree{Op: "slice", L: append([]int64{}, l...)} }
 	add := func(t *Tree, term string) { cs = append(cs, Case{Tree: t, Term: term}) }
 	for _, k := range faultKinds {
-		for pos := 0; pos <= 4; pos++ {
-			o := Out{K: k}
+		for pw := 0; pw < 5*4; pw++ {
+			pos, w := pw%5, pw/5 // every fault kind, at every position, bare and in each wrapped form
+			o := Out{K: k, W: w}
 			if k == "err" {
 				o.V = int64(1 + pos%5)
 			}
